@@ -58,8 +58,54 @@ func ruleR01f(c *Ctx) {
 		}
 		return "bal[" + descr(lk.Index, 0) + "]", true
 	}
+	// helpers of the machine that read or write the tracked balances, or build funding parts, are evaluated as part
+	// of the owner that calls them (`m.trackedBalance(…)`, `m.debit(…)`)
+	touchMemo := map[*ssa.Function]int{}
+	var touches func(g *ssa.Function, depth int) bool
+	touches = func(g *ssa.Function, depth int) bool {
+		if st, ok := touchMemo[g]; ok {
+			return st == 1
+		}
+		touchMemo[g] = 2
+		found := false
+		for _, b := range g.Blocks {
+			for _, ins := range b.Instrs {
+				switch x := ins.(type) {
+				case *ssa.UnOp:
+					if _, ok := fieldRead(x, balF); ok {
+						found = true
+					}
+				case *ssa.Store:
+					if fa, ok := x.Addr.(*ssa.FieldAddr); ok && sameField(fieldOfAddr(fa), amountF) {
+						found = true
+					}
+				case *ssa.Call:
+					if h := staticCallee(x); h != nil && depth < 2 && fnPkgPath(origin(h)) == pkgVM && len(h.Blocks) > 0 && h != g {
+						if touches(h, depth+1) {
+							found = true
+						}
+					}
+				}
+			}
+		}
+		if found {
+			touchMemo[g] = 1
+		}
+		return found
+	}
+	owners := map[string]bool{"withdrawAll": true, "withdrawAlways": true, "credit": true, "repay": true, "tick": true}
+	inline := func(call *ssa.Call) *ssa.Function {
+		g := staticCallee(call)
+		if g == nil || fnPkgPath(origin(g)) != pkgVM || len(g.Blocks) == 0 || g.Parent() != nil || owners[g.Name()] {
+			return nil
+		}
+		if g.Signature.Recv() == nil || !touches(g, 0) {
+			return nil
+		}
+		return g
+	}
 	mk := func(fn *ssa.Function, visit func(p *affPath)) *affEval {
-		return &affEval{c: c, fn: fn, isCell: isCell, amountF: amountF, zero: zero, visit: visit}
+		return &affEval{c: c, fn: fn, isCell: isCell, amountF: amountF, zero: zero, visit: visit, inline: inline}
 	}
 	retErrNil := func(p *affPath) bool {
 		if p.ret == nil || len(p.ret.Results) == 0 {
